@@ -1,6 +1,7 @@
 (* C07 — Trained support vector machines are optimal solutions of their dual problem.
    Only statements + `exact`; proofs in C07Proofs.v (on the solver model of C08Model.v, exact
-   arithmetic).
+   arithmetic), C07SetupProofs.v (problem assembly model C07Setup.v), C07CertProofs.v (certified
+   result checker C07Cert.v).
 
    PROVED: the value the solver compares with the requested accuracy (checkKKT of both problem
    types, which is also what the selection strategies return) is the largest violation of the KKT
@@ -12,11 +13,46 @@
    positive semidefinite K — so two accepted solutions (any shrinking / caching / warm-start
    configuration) differ in objective by at most that bound.
    With C08 (invariants of every solver state) this gives the property for accepted terminal states
-   of the model.  MONITORED on every run (tools/c07.py), not proved: that the real trainers' output
-   satisfies box / equality / eps-KKT against an independently computed kernel matrix, bias interval,
-   objective = recomputed, agreement across configurations; termination is not covered. *)
+   of the model.
+
+   PROVED (extension, second half of this file):
+   * PROBLEM ASSEMBLY (C07Setup.v mirrors, as coded, how CSvmTrainer::trainBinary — un-weighted
+     CSVMProblem and weighted GeneralQuadraticProblem, with / without offset —, EpsilonSvmTrainer
+     and OneClassSvmTrainer build the quadratic program handed to QpSolver: linear term, box of every
+     variable from label, C-, C+, example weight, log-encoded regularisation parameters, initial
+     alpha incl. the warm-start clipping (commits d631377a, 97947df9) and the rebalancing that
+     restores sum(alpha) = 0 with offset (repair of finding equality:csvm*:bias1:warm2), the 2n
+     eps-SVR variables over BlockMatrix2x2, the one-class box and start point): each assembled
+     problem IS the documented dual — objective and feasible set coincide with the textbook dual,
+     stated explicitly (csvm_dual_obj / csvm_dual_feasible in beta_i = y_i alpha_i in [0, C_i w_i];
+     svr_dual_obj / svr_dual_feasible in alpha+, alpha-; one-class: -1/2 alpha K alpha on
+     {0 <= alpha_i <= 1/(nu n), sum = 1}); the returned eps-SVR coefficient is alpha+ - alpha- and the
+     2n-variable gradient uses exactly K coef (representer form); the warm-start point is feasible
+     (box, and sum = 0 EXACTLY with offset) and a feasible old solution is kept; the one-class start
+     point is feasible.
+   * CERTIFIED RESULT CHECKER (C07Cert.certify, executable over Q, recomputes lin - K alpha itself):
+     certify = true -> box, equality within the given slack, the solver's own stopping quantity
+     (the proved check_kkt functions) <= eps on the EXACT gradient, bias inside the interval the
+     optimality conditions allow; for symmetric psd K the objective of an accepted candidate is within
+     eps * sum(U-L) + |multiplier| * (slack + slack') of the objective of EVERY point of the box whose
+     sum misses the target by <= slack' (slack' = 0: every feasible point); two accepted candidates of
+     the same problem agree within the sum of their bounds.  The psd hypothesis is DISCHARGED for the
+     linear-kernel Gram matrix X X^T of rational data (gram_sym_psd) and carried over to the 2x2 block
+     matrix of eps-SVR (block2_sym_psd).  For the Gaussian kernel K is an input of doubles: that this
+     double-valued matrix is psd is an ASSUMPTION, monitored by the check (pivoted LDL^T).
+
+   TIED on every run (tools/c07.py): the extracted assembly model, run on IEEE doubles, must
+   reproduce bit for bit the problem the real trainer hands to QpSolver (observed inside
+   QpSolver::solve of the trainer's own call), the block-matrix index map and the eps-SVR coefficient;
+   the extracted certify, run in exact rational arithmetic on the real trainer's returned variables
+   with an independently computed kernel matrix, must accept (eps + printed rounding allowance).
+   MONITORED on every run, not proved: the Python spec monitor (box / equality / eps-KKT / bias
+   interval / objective = recomputed / agreement across configurations), kept unchanged.
+   NOT PROVED: that the real double-precision solver reaches an accepted state (termination), the
+   size of the rounding allowance handed to certify (justified in the evidence, not proved), the
+   exp of the log-encoded parameters (compared bit for bit with libm), psd of Gaussian Gram matrices. *)
 From Coq Require Import QArith List.
-From SharkV Require Import C08Model C08Defs C08Aux C07Proofs.
+From SharkV Require Import C08Model C08Defs C08Aux C07Proofs C07Setup C07SetupProofs C07Cert C07CertProofs.
 Open Scope Q_scope.
 
 Theorem C07_checkKKT_is_max_violation_svm : forall (s : qst),
@@ -80,3 +116,181 @@ Theorem C07_eps_KKT_near_optimal : forall (n : nat) (K0 : nat -> nat -> Q),
   objv n K0 lin al' - objv n K0 lin al <= eps * sumn n (fun a => U a - L a).
 Proof. exact eps_KKT_near_optimal. Qed.
 Print Assumptions C07_eps_KKT_near_optimal.
+
+(* ====================================================================================== *)
+(* Extension: problem assembly (C07Setup.v) and certified result checker (C07Cert.v)       *)
+(* ====================================================================================== *)
+
+(* --- C-SVM: the assembled problem is the textbook dual under alpha_i = y_i beta_i --- *)
+Theorem C07_csvm_assembled_problem_is_textbook_dual :
+  forall bias n K lab Cn Cp w prev beta,
+  (* objective *)
+  qp_obj K (csvmw_problem qops 1 bias n lab Cn Cp w prev) (to_alpha lab beta) == csvm_dual_obj n K lab beta /\
+  (* feasible set, weighted data: 0 <= beta_i <= C_{y_i} w_i [, sum y_i beta_i = 0] *)
+  (qp_feasible (csvmw_problem qops 1 bias n lab Cn Cp w prev) (to_alpha lab beta) <->
+   csvm_dual_feasible n lab (csvm_C lab Cn Cp w) bias beta) /\
+  (* un-weighted data (CSVMProblem) *)
+  (qp_feasible (csvm_problem qops 1 bias n lab Cn Cp prev) (to_alpha lab beta) <->
+   csvm_dual_feasible n lab (csvm_C lab Cn Cp (fun _ => 1)) bias beta) /\
+  (* the change of variables is a bijection, and the decision function is the dual's representer form *)
+  (forall i, to_beta lab (to_alpha lab beta) i == beta i) /\
+  (forall i, sumn n (fun j => K i j * to_alpha lab beta j) == sumn n (fun j => ysgn lab j * beta j * K i j)).
+Proof.
+  intros. split; [apply csvm_objective_is_dual|].
+  split; [apply csvmw_problem_is_dual|]. split; [apply csvm_problem_is_dual|].
+  split; [intros; apply to_beta_to_alpha|intros; apply csvm_representer].
+Qed.
+Print Assumptions C07_csvm_assembled_problem_is_textbook_dual.
+
+(* every point of the assembled feasible set comes from a dual-feasible beta (alpha -> y alpha) *)
+Theorem C07_csvm_feasible_sets_coincide : forall bias n lab Cn Cp w prev al,
+  qp_feasible (csvmw_problem qops 1 bias n lab Cn Cp w prev) al <->
+  csvm_dual_feasible n lab (csvm_C lab Cn Cp w) bias (to_beta lab al).
+Proof. exact csvmw_feasible_sets_coincide. Qed.
+Print Assumptions C07_csvm_feasible_sets_coincide.
+
+(* warm start (clipping to the box of the problem; with offset the rebalancing): the point handed
+   to the solver is feasible — box, and with offset sum(alpha) = 0 EXACTLY *)
+Theorem C07_warm_start_feasible : forall bias n lab Cn Cp w prev,
+  0 <= Cn -> 0 <= Cp -> (forall i, (i < n)%nat -> 0 <= w i) ->
+  let p := csvmw_problem qops 1 bias n lab Cn Cp w prev in
+  (forall i, (i < n)%nat -> q_lo p i <= q_init p i /\ q_init p i <= q_hi p i) /\
+  (bias = true -> sumn n (q_init p) == 0).
+Proof. exact warm_start_feasible. Qed.
+Print Assumptions C07_warm_start_feasible.
+
+Theorem C07_warm_start_keeps_feasible : forall bias n lab Cn Cp w prev,
+  let p := csvmw_problem qops 1 bias n lab Cn Cp w (Some prev) in
+  (forall i, (i < n)%nat -> q_lo p i <= prev i /\ prev i <= q_hi p i) ->
+  (bias = true -> sumn n prev == 0) ->
+  forall i, (i < n)%nat -> q_init p i == prev i.
+Proof. exact warm_start_keeps_feasible. Qed.
+Print Assumptions C07_warm_start_keeps_feasible.
+
+(* --- eps-SVR: the 2n-variable problem over the block matrix is the eps-insensitive dual --- *)
+Theorem C07_svr_assembled_problem_is_eps_insensitive_dual : forall n K y C e ap am,
+  qp_obj (block2 n K) (svr_problem qops n y C e) (svr_vars n ap am) == svr_dual_obj n K y e ap am /\
+  (qp_feasible (svr_problem qops n y C e) (svr_vars n ap am) <-> svr_dual_feasible n C ap am) /\
+  (* the returned coefficient is alpha+ - alpha- ... *)
+  (forall i, (i < n)%nat -> svr_coef qops n (svr_vars n ap am) i == ap i - am i) /\
+  (* ... and the gradient of the 2n problem is built from K coef: representer form *)
+  (forall v r, sumn (n + n) (fun j => block2 n K r j * v j) ==
+               sumn n (fun j => K (bidx n r) j * svr_coef qops n v j)).
+Proof.
+  intros. split; [apply svr_objective_is_dual|]. split; [apply svr_problem_is_dual|].
+  split; [intros; apply svr_coef_is_difference; assumption|intros; apply svr_Kv_is_Kcoef].
+Qed.
+Print Assumptions C07_svr_assembled_problem_is_eps_insensitive_dual.
+
+(* --- one-class --- *)
+Theorem C07_oneclass_assembled_problem_is_dual : forall n K nu al,
+  (0 < n)%nat ->
+  qp_obj K (oc_problem qops 1 qofnat n nu) al ==
+    - (1 # 2) * sumn n (fun a => al a * sumn n (fun b => K a b * al b)) /\
+  (qp_feasible (oc_problem qops 1 qofnat n nu) al <->
+   (forall i, (i < n)%nat -> 0 <= al i /\ al i <= 1 / (nu * qofnat n)) /\ sumn n al == 1) /\
+  (0 < nu -> nu <= 1 ->
+   let p := oc_problem qops 1 qofnat n nu in qp_feasible p (q_init p)).
+Proof.
+  intros n K nu al Hn. split; [apply oc_objective|]. split; [apply oc_problem_is_dual; assumption|].
+  intros; apply oc_init_feasible; assumption.
+Qed.
+Print Assumptions C07_oneclass_assembled_problem_is_dual.
+
+(* --- certified result checker --- *)
+Theorem C07_certify_sound : forall n K lin lo hi eq target al hasbias bias eps slack_eq slack_b,
+  certify n K lin lo hi eq target al hasbias bias eps slack_eq slack_b = true ->
+  certified n K lin lo hi eq target al hasbias bias eps slack_eq slack_b.
+Proof. exact certify_sound. Qed.
+Print Assumptions C07_certify_sound.
+
+(* full statement of what `certified` contains, for the reader *)
+Theorem C07_certify_accepts_only_feasible_eps_KKT_points :
+  forall n K lin lo hi eq target al hasbias bias eps slack_eq slack_b,
+  certify n K lin lo hi eq target al hasbias bias eps slack_eq slack_b = true ->
+  (forall a, (a < n)%nat -> lo a <= al a /\ al a <= hi a) /\
+  (eq = true -> Qabs.Qabs (sumn n al - target) <= slack_eq) /\
+  (eq = true -> forall a c, (a < n)%nat -> (c < n)%nat -> al a < hi a -> lo c < al c ->
+     gradv n K lin al a - gradv n K lin al c <= eps) /\
+  (eq = false -> forall a, (a < n)%nat ->
+     (al a < hi a -> gradv n K lin al a <= eps) /\ (lo a < al a -> - eps <= gradv n K lin al a)) /\
+  (eq = true -> hasbias = true -> forall a, (a < n)%nat ->
+     (al a < hi a -> gradv n K lin al a <= bias + eps + slack_b) /\
+     (lo a < al a -> bias - eps - slack_b <= gradv n K lin al a)).
+Proof.
+  intros until slack_b. intros C. apply certify_sound in C. destruct C as [_ B E K1 _ K2 Bi].
+  split; [exact B|]. split; [exact E|]. split; [exact K1|]. split; [exact K2|exact Bi].
+Qed.
+Print Assumptions C07_certify_accepts_only_feasible_eps_KKT_points.
+
+Theorem C07_certified_near_optimal : forall n K, Ksym K -> Kpsd n K ->
+  forall lin lo hi eq target al hasbias bias eps slack_eq slack_b,
+  certify n K lin lo hi eq target al hasbias bias eps slack_eq slack_b = true ->
+  forall al' slack', in_box n lo hi al' ->
+  (eq = true -> Qabs.Qabs (sumn n al' - target) <= slack') ->
+  objv n K lin al' - objv n K lin al <=
+  eps * sumn n (fun a => hi a - lo a) +
+  (if eq then Qabs.Qabs (cert_mult n K lin lo hi al) * (slack_eq + slack') else 0).
+Proof. exact certified_near_optimal. Qed.
+Print Assumptions C07_certified_near_optimal.
+
+Theorem C07_certified_near_optimal_bias : forall n K, Ksym K -> Kpsd n K ->
+  forall lin lo hi target al bias eps slack_eq slack_b,
+  certify n K lin lo hi true target al true bias eps slack_eq slack_b = true ->
+  forall al' slack', in_box n lo hi al' -> Qabs.Qabs (sumn n al' - target) <= slack' ->
+  objv n K lin al' - objv n K lin al <=
+  (eps + slack_b) * sumn n (fun a => hi a - lo a) + Qabs.Qabs bias * (slack_eq + slack').
+Proof. exact certified_near_optimal_bias. Qed.
+Print Assumptions C07_certified_near_optimal_bias.
+
+Theorem C07_certified_results_agree : forall n K, Ksym K -> Kpsd n K ->
+  forall lin lo hi eq target al1 hb1 b1 eps1 se1 sb1 al2 hb2 b2 eps2 se2 sb2,
+  certify n K lin lo hi eq target al1 hb1 b1 eps1 se1 sb1 = true ->
+  certify n K lin lo hi eq target al2 hb2 b2 eps2 se2 sb2 = true ->
+  let S := sumn n (fun a => hi a - lo a) in
+  let m1 := if eq then Qabs.Qabs (cert_mult n K lin lo hi al1) * (se1 + se2) else 0 in
+  let m2 := if eq then Qabs.Qabs (cert_mult n K lin lo hi al2) * (se2 + se1) else 0 in
+  objv n K lin al2 - objv n K lin al1 <= eps1 * S + m1 /\
+  objv n K lin al1 - objv n K lin al2 <= eps2 * S + m2.
+Proof. exact certified_results_agree. Qed.
+Print Assumptions C07_certified_results_agree.
+
+(* the psd hypothesis is discharged for the linear kernel on rational data, and for the eps-SVR
+   block matrix of any psd matrix *)
+Theorem C07_linear_kernel_gram_is_sym_psd : forall n d X, Ksym (gram d X) /\ Kpsd n (gram d X).
+Proof. exact gram_sym_psd. Qed.
+Print Assumptions C07_linear_kernel_gram_is_sym_psd.
+
+Theorem C07_block_matrix_is_sym_psd : forall n K,
+  Ksym K -> Kpsd n K -> Ksym (block2 n K) /\ Kpsd (n + n) (block2 n K).
+Proof. exact block2_sym_psd. Qed.
+Print Assumptions C07_block_matrix_is_sym_psd.
+
+(* instance with every hypothesis discharged: linear kernel, certified result, every feasible point *)
+Theorem C07_certified_linear_kernel_near_optimal : forall n d X lin lo hi eq target al hasbias bias eps slack_eq slack_b,
+  certify n (gram d X) lin lo hi eq target al hasbias bias eps slack_eq slack_b = true ->
+  forall al', in_box n lo hi al' -> (eq = true -> sumn n al' == target) ->
+  objv n (gram d X) lin al' - objv n (gram d X) lin al <=
+  eps * sumn n (fun a => hi a - lo a) +
+  (if eq then Qabs.Qabs (cert_mult n (gram d X) lin lo hi al) * slack_eq else 0).
+Proof.
+  intros n d X lin lo hi eq target al hasbias bias eps slack_eq slack_b C al' B E.
+  destruct (gram_sym_psd n d X) as [Hs Hp].
+  pose proof (certified_near_optimal n (gram d X) Hs Hp _ _ _ _ _ _ _ _ _ _ _ C al' 0 B) as M.
+  assert (E' : eq = true -> Qabs.Qabs (sumn n al' - target) <= 0).
+  { intros T. rewrite (E T). setoid_replace (target - target) with 0 by ring. cbn. apply Qle_refl. }
+  specialize (M E'). destruct eq; [|exact M].
+  setoid_replace (slack_eq + 0) with slack_eq in M by ring. exact M.
+Qed.
+Print Assumptions C07_certified_linear_kernel_near_optimal.
+
+(* satisfiability: a concrete 3-point problem (x = 1, 2, -1; labels +,+,-; linear kernel; C = 1;
+   offset) whose optimum alpha = (1/2, 0, -1/2) certify accepts, and a non-optimal point it rejects;
+   a concrete weighted dual-feasible point *)
+Example C07_certify_accepts_3_point_problem :
+  certify_qp (gram 1 ex_X) ex_p 0 ex_al true 0 (1 # 100) 0 0 = true.
+Proof. exact certify_accepts_example. Qed.
+Example C07_certify_rejects_non_optimal_point :
+  certify_qp (gram 1 ex_X) ex_p 0 (fun i => if (i =? 0)%nat then 1 # 4 else if (i =? 1)%nat then 0 else - (1 # 4))
+             true 0 (1 # 100) 0 0 = false.
+Proof. exact certify_rejects_example. Qed.
